@@ -144,10 +144,40 @@ def directed_histories(tier: str):
     return out
 
 
+def client_histories(tier: str, seed: int):
+    """claim / data histories through the four real gateway clients built with the configuration's options, the link lost and
+    re-established at a chosen step: the identity a source claimed on the first link is still its identity on the second"""
+    import random
+    from .. import decoderrun as dr
+    rng = random.Random(seed + 3)
+
+    def single(p, s):
+        return {"k": "single", "pgn": p, "src": s, "tok": []}
+    h1 = [{"k": "claim", "src": 1, "name": 1}, single("A", 1), {"k": "claim", "src": 2, "name": 2}, single("A", 2), single("A", 1),
+          single("B", 2), single("B", 1), {"k": "claim", "src": 1, "name": 2}, single("A", 1)]
+    h2 = [single("A", 1), {"k": "claim", "src": 1, "name": 2}, single("A", 1), {"k": "window"}, single("A", 2), single("A", 1),
+          {"k": "claim", "src": 2, "name": 1}, single("B", 2)]
+    cfgs = [{"mode": "none", "nums": [], "ids": [], "mfrMode": mm, "mfrs": mf, "mfrsIn": mi, "netmap": nm}
+            for mm, mf, mi in (("none", [], []), ("exclude", ["m1"], []), ("include", ["m2"], []), ("both", ["m1"], ["m1", "m2"]))
+            for nm in (False, True)]
+    out = []
+    kinds = ("ebyte", "actisense", "yd", "waveshare") if tier != "selftest" else ("ebyte",)
+    for kind in kinds:
+        for ci, cfg in enumerate(cfgs):
+            for hi, (h, relinks) in enumerate(((h1, (4,)), (h1, (2, 7)), (h2, (4,)), (h1, ()))):
+                if tier != "thorough" and (ci + hi) % 2:
+                    continue
+                out.append(dr.replay_through_client(kind, cfg, h, rng, relink_before=relinks))
+    return out
+
+
 def bind(chk: Check, tier: str, seed: int):
     wd = workdir(PROP)
     identity_records(chk, wd, tier, seed)
-    traces, outs, drops = c10.run_traces(chk, wd, PROP, tier, seed, classify, directed=directed_histories(tier))
+    through_clients = client_histories(tier, seed)
+    chk.add(histories_through_clients=len(through_clients))
+    traces, outs, drops = c10.run_traces(chk, wd, PROP, tier, seed, classify, directed=directed_histories(tier),
+                                         more_traces=through_clients)
     with_ident = sum(1 for t in traces for e in t["evs"] if e["obsU"]["ret"] == "msg" and e["obsU"]["ident"] not in (0,))
     inside = sum(1 for t in traces for i, e in enumerate(t["evs"][1:], 1)
                  if e["in"]["k"] == "claim" and any(x["in"]["k"] == "frame" and x["in"]["src"] == e["in"]["src"] for x in t["evs"][max(0, i - 3):i]))
